@@ -4,7 +4,7 @@
    and walls of real grids. *)
 From Coq Require Import QArith Qabs List Bool.
 From HG Require Import Gen_Wall.
-From HT Require Import Model_Geom2D Proof_Geom2D Model_Wall Proof_Wall.
+From HT Require Import Model_Geom2D Proof_Geom2D Model_Wall Proof_Wall Model_Contour Proof_Contour.
 Import ListNotations.
 Local Open Scope Q_scope.
 
@@ -52,7 +52,21 @@ Example C11_concrete :
   penalty 0 (close_wall (normalise_wall sq)) (mkpt (1#2) (1#2)) (mkpt (1#4) (1#3)) (mkpt (5#4) (1#3)) == 1 # 4.
 Proof. vm_compute. repeat split; reflexivity. Qed.
 
+(* which point of a contour is the target: the index bookkeeping of PsiContour (theories/Model_Contour.v, run against the real class).  For EVERY history of insert calls
+   (at any position inside the list) and guard-cell extensions (temporaryExtend at either end) startInd and endInd keep designating the points they designated -- so the
+   wall point put at endInd / startInd by addPointAtWallToContours stays the target; reverse exchanges the two; a negative endInd (used when a contour had to be
+   extended to reach the wall) survives extensions at both ends *)
+Theorem C11_target_indices_are_stable :
+  (forall os c, wf c -> ops_ok c os -> start_pt (fold_left apply_op os c) = start_pt c /\ end_pt (fold_left apply_op os c) = end_pt c) /\
+  (forall c, wf c -> start_pt (reverse c) = end_pt c /\ end_pt (reverse c) = start_pt c) /\
+  (forall c x, (- len c <= ei c < 0)%Z -> end_pt (extend_upper1 x c) = end_pt c /\ end_pt (extend_lower1 x c) = end_pt c).
+Proof.
+  split; [exact history_keeps_ends|]. split; [intros c H; destruct (reverse_swaps_ends c H) as (A & B & _); split; assumption|].
+  intros c x H. split; [apply extend_upper_keeps_negative_end | apply extend_lower_keeps_negative_end]; exact H.
+Qed.
+
 Print Assumptions C11_wall_output.
 Print Assumptions C11_orientation_reverses.
 Print Assumptions C11_penalty_mask.
 Print Assumptions C11_fraction_in_unit_interval.
+Print Assumptions C11_target_indices_are_stable.
